@@ -31,10 +31,14 @@ Elems == << <<I(3), I(4), I(12), I(85)>>, <<I(-9), I(12), I(-20), I(65)>>, <<I(1
             <<I(1), I(-1), I(2), I(3)>>, <<I(5), I(1), I(-12), I(14)>>, <<I(0), I(0), I(0), I(0)>>,
             <<I(3), I(4), I(12), I(13)>>, <<I(3), I(-4), I(12), I(5)>> >>
 ZeroId == 6
-Vec(e, n) == [k \in 1..n |-> Elems[e][k]]
+\* reductions also use elements with a single non-zero component (9: z only, 10: t only, 11: y only): whether such an
+\* element is the zero vector depends on the dimension the array has
+ElemsX == Elems \o << <<I(0), I(0), I(5), I(0)>>, <<I(0), I(0), I(0), I(3)>>, <<I(0), I(-2), I(0), I(0)>> >>
+Vec(e, n) == [k \in 1..n |-> ElemsX[e][k]]
+IsZeroIn(e, n) == \A k \in 1..n : ElemsX[e][k] = Zero
 ZeroVec(n) == [k \in 1..n |-> Zero]
 VSum(a, b) == [k \in 1..Len(a) |-> QAdd(a[k], b[k])]
-IsLeaf(x) == x \in 1..Len(Elems)
+IsLeaf(x) == x \in 1..Len(ElemsX)
 
 RECURSIVE SumSeq(_, _)
 \* sum of a flat sequence of element ids (missing entries are skipped, as ak.sum does)
@@ -43,8 +47,8 @@ SumSeq(s, n) == IF s = <<>> THEN ZeroVec(n)
                 ELSE VSum(Vec(Head(s), n), SumSeq(Tail(s), n))
 RECURSIVE CountSeq(_)
 CountSeq(s) == IF s = <<>> THEN 0 ELSE (IF Head(s) = Null THEN 0 ELSE 1) + CountSeq(Tail(s))
-RECURSIVE CountNZ(_)
-CountNZ(s) == IF s = <<>> THEN 0 ELSE (IF Head(s) = Null \/ Head(s) = ZeroId THEN 0 ELSE 1) + CountNZ(Tail(s))
+RECURSIVE CountNZ(_, _)
+CountNZ(s, n) == IF s = <<>> THEN 0 ELSE (IF Head(s) = Null \/ IsZeroIn(Head(s), n) THEN 0 ELSE 1) + CountNZ(Tail(s), n)
 \* depth is explicit (TLC cannot ask whether a value is a number or a sequence):
 \* depth 1 = sequence of element ids (0 = missing), depth 2 = sequence of depth-1 lists
 \* (NullList = missing list), depth 3 = sequence of depth-2 lists
@@ -60,11 +64,12 @@ Column(ll, j) == LET idx == { i \in 1..Len(ll) : ll[i] # NullList /\ Len(ll[i]) 
 
 \* ------------------------------------------------------------ reductions
 \* NumPy: regular 1-D / 2-D arrays (sequences of rows)
-NpArrays == { <<1, 2, 3>>, <<2>>, <<4, 5, 1, 2>>, <<6, 1, 6>>, <<7, 6, 8>>, <<7, 7>> }
-NpMatrices == { << <<1, 2>>, <<3, 4>> >>, << <<1, 2, 3>>, <<4, 5, 6>> >>, << <<2>>, <<3>>, <<6>> >>, << <<7, 6>>, <<8, 1>> >> }
+NpArrays == { <<1, 2, 3>>, <<2>>, <<4, 5, 1, 2>>, <<6, 1, 6>>, <<7, 6, 8>>, <<7, 7>>, <<9, 10, 6>>, <<11, 9>> }
+NpMatrices == { << <<1, 2>>, <<3, 4>> >>, << <<1, 2, 3>>, <<4, 5, 6>> >>, << <<2>>, <<3>>, <<6>> >>, << <<7, 6>>, <<8, 1>> >>, << <<9, 10>>, <<11, 6>> >> }
 \* Awkward: ragged, with empty and missing lists and missing elements
 Ragged == { << <<1, 2>>, <<>>, <<3>> >>, << <<1>>, NullList, <<2, 3, 4>> >>, << <<>>, <<>> >>,
-            << <<1, 6>>, <<6>>, <<2, 5, 6>> >>, << <<1, Null, 2>>, <<3>> >>, << <<7, 6>>, <<8>>, <<>> >> }
+            << <<1, 6>>, <<6>>, <<2, 5, 6>> >>, << <<1, Null, 2>>, <<3>> >>, << <<7, 6>>, <<8>>, <<>> >>,
+            << <<9, 6>>, <<10>>, <<11, 9, 10>> >> }
 NestedRagged == { << << <<1>>, <<>> >>, << <<2, 3>> >> >>, << << <<1, 2>>, <<3>> >>, <<>>, << <<4>> >> >> }
 
 ReduceCase(lib, arr, shape, op, axis, keepdims, dim, exp) ==
@@ -75,15 +80,15 @@ ReduceNp1 ==
     \* numpy.sum over 1-D arrays (axis None / 0 / -1)
     { ReduceCase("np", a, <<Len(a)>>, "sum", ax, "F", n, <<"vec", SumSeq(a, n)>>) : a \in NpArrays, ax \in {"None", "0", "-1"}, n \in 2..4 }
     \cup { ReduceCase("np", a, <<Len(a)>>, "sum", "0", "T", n, <<"vecs", << SumSeq(a, n) >> >>) : a \in NpArrays, n \in 2..4 }
-    \cup { ReduceCase("np", a, <<Len(a)>>, "count_nonzero", "None", "F", n, <<"int", CountNZ(a)>>) : a \in NpArrays, n \in 2..4 }
+    \cup { ReduceCase("np", a, <<Len(a)>>, "count_nonzero", "None", "F", n, <<"int", CountNZ(a, n)>>) : a \in NpArrays, n \in 2..4 }
 ReduceNp2 ==
     \* numpy.sum over 2-D arrays
     { ReduceCase("np", m, <<Len(m), Len(m[1])>>, "sum", "None", "F", n, <<"vec", SumSeq(Flatten2(m), n)>>) : m \in NpMatrices, n \in 2..4 }
     \cup { ReduceCase("np", m, <<Len(m), Len(m[1])>>, "sum", "0", kd, n, <<"vecs", VecsOf(Cols(m), n)>>) : m \in NpMatrices, kd \in {"F", "T"}, n \in 2..4 }
     \cup { ReduceCase("np", m, <<Len(m), Len(m[1])>>, "sum", ax, kd, n, <<"vecs", VecsOf(m, n)>>) : m \in NpMatrices, ax \in {"1", "-1"}, kd \in {"F", "T"}, n \in 2..4 }
     \* count_nonzero
-    \cup { ReduceCase("np", m, <<Len(m), Len(m[1])>>, "count_nonzero", "1", "F", n, <<"ints", [i \in 1..Len(m) |-> CountNZ(m[i])]>>) : m \in NpMatrices, n \in 2..4 }
-    \cup { ReduceCase("np", m, <<Len(m), Len(m[1])>>, "count_nonzero", "0", "F", n, <<"ints", [j \in 1..Len(m[1]) |-> CountNZ(Cols(m)[j])]>>) : m \in NpMatrices, n \in 2..4 }
+    \cup { ReduceCase("np", m, <<Len(m), Len(m[1])>>, "count_nonzero", "1", "F", n, <<"ints", [i \in 1..Len(m) |-> CountNZ(m[i], n)]>>) : m \in NpMatrices, n \in 2..4 }
+    \cup { ReduceCase("np", m, <<Len(m), Len(m[1])>>, "count_nonzero", "0", "F", n, <<"ints", [j \in 1..Len(m[1]) |-> CountNZ(Cols(m)[j], n)]>>) : m \in NpMatrices, n \in 2..4 }
 ReduceAk ==
     \* ak.sum over ragged arrays: axis 1 (per list; empty -> zero vector, missing list -> missing), axis 0 (by position), None
     { ReduceCase("ak", r, <<>>, "sum", ax, "F", n,
@@ -93,7 +98,7 @@ ReduceAk ==
     \cup { ReduceCase("ak", r, <<>>, "count", "1", "F", n,
                       <<"optints", [i \in 1..Len(r) |-> IF r[i] = NullList THEN NullOut ELSE CountSeq(r[i])]>>) : r \in Ragged, n \in 2..4 }
     \cup { ReduceCase("ak", r, <<>>, "count_nonzero", "1", "F", n,
-                      <<"optints", [i \in 1..Len(r) |-> IF r[i] = NullList THEN NullOut ELSE CountNZ(r[i])]>>) : r \in Ragged, n \in 2..4 }
+                      <<"optints", [i \in 1..Len(r) |-> IF r[i] = NullList THEN NullOut ELSE CountNZ(r[i], n)]>>) : r \in Ragged, n \in 2..4 }
     \cup { ReduceCase("ak", r, <<>>, "sum", "1", "T", n,
                       <<"optvecs1", [i \in 1..Len(r) |-> IF r[i] = NullList THEN NullOut ELSE SumSeq(r[i], n)]>>) : r \in Ragged, n \in 2..4 }
 ReduceAk3 ==
@@ -209,7 +214,7 @@ Init == \/ Part = "reduce" /\ (c \in ReduceNp1 \/ c \in ReduceNp2 \/ c \in Reduc
         \/ Part = "broadcast" /\ c \in AkBroadcasts
 Next == UNCHANGED c
 Spec == Init /\ [][Next]_c
-Emit == PrintT("@@ARR " \o ToJson([case |-> c, elems |-> Elems]))
+Emit == PrintT("@@ARR " \o ToJson([case |-> c, elems |-> IF Part = "reduce" THEN ElemsX ELSE Elems]))
 
 \* ---- sanity of the specification's own definitions
 RECURSIVE SumVecs(_, _)
